@@ -57,4 +57,38 @@ LowerFirst(s) == IF \E k \in 1..26 : SubSeq(Upper, k, k) = SubSeq(s, 1, 1)
 RuleOfCallback(n) == LowerFirst(IF SubSeq(n, 1, 5) = "Enter" THEN SubSeq(n, 6, Len(n)) ELSE SubSeq(n, 5, Len(n)))
 Callbacks == Logged[CHOOSE i \in Recs("callbacks") : TRUE].names
 ListenerCallbacksExist == \A k \in 1..Len(Callbacks) : \E j \in 1..Len(AnyReplica("parser").rules) : AnyReplica("parser").rules[j] = RuleOfCallback(Callbacks[k])
+
+(***************************************************************************)
+(* The generated recursive-descent code itself (hand edits leave the ATN   *)
+(* untouched).  The driver reads each package's parser as text and logs,   *)
+(* per rule method, the sequence of parser actions (state numbers, matched *)
+(* tokens, alternatives, prediction decisions, calls of other rules -     *)
+(* not token-set masks, which the JS target splits); per context class the rule index it carries; the listener *)
+(* methods the contexts dispatch to and the listener files declare.  The   *)
+(* three packages come from one generator run over one grammar: the action *)
+(* sequences are the same sequence, written in three languages.            *)
+(***************************************************************************)
+Skel(l) == Logged[CHOOSE i \in Recs("skeleton") : Logged[i].lang = l]
+ParserRules == AnyReplica("parser").rules
+RuleSet == { ParserRules[j] : j \in 1..Len(ParserRules) }
+ParserSkeletonsAgree ==
+  /\ { Logged[i].lang : i \in Recs("skeleton") } = {"go", "js", "java"}
+  /\ \A l \in {"go", "js", "java"} : DOMAIN Skel(l).rules = RuleSet
+  /\ \A r \in RuleSet : Skel("go").rules[r] = Skel("js").rules[r] /\ Skel("go").rules[r] = Skel("java").rules[r]
+\* every context class carries the index of the rule it is named after, and every rule has its class
+ContextsCarryTheirRule ==
+  \A l \in {"go", "js", "java"} :
+    LET P == Skel(l).ctxrule IN
+    /\ \A k \in 1..Len(P) : LowerFirst(P[k][1]) = P[k][2]
+    /\ { P[k][2] : k \in 1..Len(P) } = RuleSet
+\* the listener methods - dispatched to by the contexts, declared by the listener files - are Enter / Exit of exactly the rules
+UpperFirst(s) == IF \E k \in 1..26 : SubSeq(LowerS, k, k) = SubSeq(s, 1, 1)
+                 THEN SubSeq(Upper, CHOOSE k \in 1..26 : SubSeq(LowerS, k, k) = SubSeq(s, 1, 1), CHOOSE k \in 1..26 : SubSeq(LowerS, k, k) = SubSeq(s, 1, 1)) \o SubSeq(s, 2, Len(s))
+                 ELSE s
+Methods(l) == { p \o UpperFirst(r) : r \in RuleSet, p \in (IF l = "go" THEN {"Enter", "Exit"} ELSE {"enter", "exit"}) }
+SeqSet(q) == { q[k] : k \in 1..Len(q) }
+GeneratedListenersMatchRules ==
+  \A l \in {"go", "js", "java"} :
+    /\ SeqSet(Skel(l).dispatch) = Methods(l)
+    /\ \A f \in 1..Len(Skel(l).listeners) : SeqSet(Skel(l).listeners[f]) = Methods(l)
 =============================================================================
